@@ -267,11 +267,13 @@ fn key_set(pattern: &str, n: usize, rng: &mut StdRng) -> Vec<([u8; 32], u32)> {
             "first_byte" => k[0] = rng.gen(),
             // two late digits
             "late2" => { k[29] = rng.gen(); k[31] = rng.gen(); }
+            // siblings sharing a long prefix, with repeats arriving after their siblings
+            "prefix_dups" => { k[30] = rng.gen::<u8>() & 3; k[31] = rng.gen::<u8>() & 7; }
             // 0x00 / 0xff boundaries
             "extremes" => { for b in k.iter_mut() { *b = if rng.gen::<bool>() { 0x00 } else { 0xff }; } }
             _ => rng.fill(&mut k),
         }
-        if pattern == "random_dups" && i % 3 == 2 && !out.is_empty() {
+        if (pattern == "random_dups" || pattern == "prefix_dups") && i % 3 == 2 && !out.is_empty() {
             let j = rng.gen_range(0..out.len());
             out.push(out[j]);
             continue;
@@ -299,7 +301,7 @@ pub fn run_keys(args: &[String]) -> i32 {
     let mut rng = StdRng::seed_from_u64(seed);
     let mut out = util::Out::create(&args[0]);
     let patterns = ["digit0", "digit3", "digit7", "digit12", "digit14", "digit15", "rule_lo", "rule_hi", "rule_mix",
-        "last_byte", "first_byte", "late2", "extremes", "random", "random_dups"];
+        "last_byte", "first_byte", "late2", "extremes", "random", "random_dups", "prefix_dups"];
     let mut sizes: Vec<usize> = vec![0, 1, 7, 1023, 1024, 1025];
     if thorough {
         sizes.extend([2, 1300, 2048, 3000, 5000]);
